@@ -123,26 +123,36 @@ impl DnValueR {
     }
 }
 
-/// A name as the sequence of pushes that builds it.
+/// A name as the edit history that builds it: `Some(value)` is a push, `None` a remove.
 #[derive(Clone, Debug, PartialEq, Eq, Default, Serialize, Deserialize)]
-pub struct DnRecipe(pub Vec<(DnTypeR, DnValueR)>);
+pub struct DnRecipe(pub Vec<(DnTypeR, Option<DnValueR>)>);
 
 impl DnRecipe {
     pub fn build(&self) -> DistinguishedName {
         let mut dn = DistinguishedName::new();
         for (t, v) in &self.0 {
-            dn.push(t.build(), v.build());
+            match v {
+                Some(v) => dn.push(t.build(), v.build()),
+                None => {
+                    dn.remove(t.build());
+                }
+            }
         }
         dn
     }
-    /// The list an insertion-ordered map must hold after these pushes.
+    /// The list an insertion-ordered map must hold after this history.
     pub fn model(&self) -> Vec<(DnTypeR, DnValueR)> {
         let mut out: Vec<(DnTypeR, DnValueR)> = Vec::new();
         for (t, v) in &self.0 {
-            if let Some(e) = out.iter_mut().find(|(tt, _)| tt == t) {
-                e.1 = v.clone();
-            } else {
-                out.push((t.clone(), v.clone()));
+            match v {
+                Some(v) => {
+                    if let Some(e) = out.iter_mut().find(|(tt, _)| tt == t) {
+                        e.1 = v.clone();
+                    } else {
+                        out.push((t.clone(), v.clone()));
+                    }
+                }
+                None => out.retain(|(tt, _)| tt != t),
             }
         }
         out
@@ -477,7 +487,7 @@ impl Swarm {
     }
 }
 
-const PRINTABLE: &[u8] = b"ABCDEFGHIJKLMNOPQRSTUVWXYZabcdefghijklmnopqrstuvwxyz0123456789 '()+,-./:="; // no '?': rcgen accepts it, yasna 0.5.2 panics on it (C10/C13 territory, not ours)
+const PRINTABLE: &[u8] = b"ABCDEFGHIJKLMNOPQRSTUVWXYZabcdefghijklmnopqrstuvwxyz0123456789 '()+,-./:=?";
 const HOSTCH: &[u8] = b"abcdefghijklmnopqrstuvwxyz0123456789-";
 const UNI: [char; 12] = ['a', 'Z', '7', ' ', 'é', 'ß', 'Ω', 'ж', '中', '日', '\u{fffd}', '€'];
 const ASTRAL: [char; 3] = ['😀', '𝔘', '\u{10ffff}'];
@@ -562,11 +572,20 @@ pub fn gen_dn_type(r: &mut Rng) -> DnTypeR {
 
 pub fn gen_dn(r: &mut Rng, wide: bool) -> DnRecipe {
     let n = if wide { r.range(0, 8) } else { r.range(1, 3) } as usize;
-    let mut v = Vec::new();
+    let mut v: Vec<(DnTypeR, Option<DnValueR>)> = Vec::new();
     for _ in 0..n {
         let t = if wide { gen_dn_type(r) } else { STD_TYPES[r.usize(6)].clone() };
         let val = if wide { gen_dn_value(r, 24) } else { DnValueR::Utf8(s_from(r, PRINTABLE, 1, 12)) };
-        v.push((t, val));
+        v.push((t, Some(val)));
+        // names are also built by editing: remove an earlier attribute, sometimes put it back
+        if wide && v.len() >= 2 && r.chance(1, 5) {
+            let k = r.usize(v.len());
+            let ty = v[k].0.clone();
+            v.push((ty.clone(), None));
+            if r.chance(1, 2) {
+                v.push((ty, Some(gen_dn_value(r, 12))));
+            }
+        }
     }
     DnRecipe(v)
 }
@@ -766,8 +785,8 @@ pub fn gen_ca_cert(r: &mut Rng, sw: &Swarm) -> CertRecipe {
     } else if r.chance(1, 2) {
         c.key_usages.clear();
     }
-    if c.dn.0.is_empty() {
-        c.dn.0.push((DnTypeR::Cn, DnValueR::Utf8("sim ca".into())));
+    if c.dn.model().is_empty() {
+        c.dn.0.push((DnTypeR::Cn, Some(DnValueR::Utf8("sim ca".into()))));
     }
     c
 }
@@ -810,7 +829,7 @@ impl CertRecipe {
             nanos: 0,
             serial: Some("01".into()),
             sans: vec![],
-            dn: DnRecipe(vec![(DnTypeR::Cn, DnValueR::Utf8("x".into()))]),
+            dn: DnRecipe(vec![(DnTypeR::Cn, Some(DnValueR::Utf8("x".into())))]),
             is_ca: IsCaR::No,
             key_usages: vec![],
             ekus: vec![],
